@@ -618,7 +618,7 @@ def fileList (path : Option Bytes) (names : Bool) : M (Replies × Bytes) :=
     if ready then
       let w ← getW
       -- the sink is an ostringstream behind an ostream_adapter: modelled by the recording sink without events
-      modifyW fun w => { w with sinkSilent := true, sink := [] }
+      modifyW fun w => { w with sinkSilent := true, sink := [], sinkFailAt := none }
       dataRecv false w.ttype
       let w ← getW
       emit (.listing w.sink)
